@@ -270,3 +270,21 @@ Section Residue.
     apply digest_eqb_spec in E1. apply N.eqb_eq in E2. destruct Hne; contradiction.
   Qed.
 End Residue.
+
+(* ---------- refuted witnesses of the remaining known findings ---------- *)
+(* link-through-file-rejected: a dangling relative link whose target passes through a regular
+   file of the tree is refused (ENOTDIR from the Lstat walk) when the file is extracted first,
+   and restored when it comes later *)
+Definition through_file_tree (file : string) : tree :=
+  Dir 493 0 [ (b file, File (b "x") 420 0); (b "l", Link (b file ++ b "/x/y") 0) ].
+
+Theorem through_file_refuted :
+  benign_tree [b "d"] (through_file_tree "a") = false /\
+  wf_treeb (through_file_tree "a") = true /\ modes_okb (through_file_tree "a") = true /\
+  extract [b "d"] 18 false (tar_entries [b "d"] true (through_file_tree "a")) = Err XSymlinkDir /\
+  exists f', extract [b "d"] 18 false (tar_entries [b "d"] true (through_file_tree "z")) = Ok f' /\
+    fs_lookup f' [b "l"] = Some (NLink (b "z/x/y")) /\ fs_lookup f' [b "z"] = Some (NFile (b "x") 420).
+Proof.
+  repeat (split; [vm_compute; reflexivity|]).
+  eexists. split; [vm_compute; reflexivity|]. split; vm_compute; reflexivity.
+Qed.
